@@ -37,7 +37,7 @@ CHECKS = {
    technique="bounded-exhaustive enumeration of programs filtered by the real parser, executed in fenced worker processes with a crash journal"),
  "C05": dict(category="exploration", design="§3 C05",
    text="Seeds (all nestings to depth 1/2 with one effect per block, plus hand-written seeds with handlers/variadics/typed functions) x 11 mutation operators, one per static rule, applied at EVERY position where they apply; a mutant is judged when the reference static checker rejects it (stray text: invalid by grammar). Parse must return located errors, Evaluator.Run must return them with an empty effect trace, and the evy run binary must print nothing on stdout, report on stderr and exit non-zero.",
-   note="Reference static checker written from docs/spec.md; CLI runs for every 400th (quick) / 40th (thorough) mutant per rule.",
+   note="Reference static checker written from docs/spec.md; CLI runs (plain, --svg-out -, --svg-out FILE) for every 400th (quick) / 150th (thorough) mutant per rule.",
    technique="exhaustive single-site mutation of enumerated seed programs, judged by a reference static checker"),
  "C06": dict(category="exploration", design="§3 C06",
    text="Program trees covering every syntax form x all layouts with <= 1 (quick) / 2 (thorough) deviations from the canonical layout (whitespace amount/presence, trailing and own-line comments, blank-line runs, newlines/comments inside literals, tabs, CR) plus NUL bytes at every token boundary. Format(src) must keep the exact non-whitespace token sequence (independent tokenizer, literals by value), parse again to the same tree and behave identically under the recorder.",
